@@ -114,6 +114,50 @@ def Status.name : Status → String
 def showOut (o : Out) : String :=
   s!"{o.status.name} checked={o.checked.map showBytes} performed={o.performed.map fun r => (r.seq, showBytes r.key)}"
 
+def headResOf (j : Json) : R HeadRes := do
+  pure { key := strBytes (← strF j "key"), eligible := ← boolF j "eligible", eligErr := ← boolF j "eligErr",
+         detailErr := ← boolF j "detailErr" }
+
+/-- the case runs the repository's v2 runner against a scripted registry -/
+def hasReg (input : Json) : Bool :=
+  match fieldD input "reg" .null with
+  | .null => false
+  | _ => true
+
+/-- a recorded registry call: the head it belongs to (`none` = the report-time check) and the call -/
+def callOf (j : Json) : R (Option Nat × Call HeadRes) := do
+  let h ← intF j "head"
+  let keys := (← listOf asStr (fieldD j "keys" .null)).map strBytes
+  let results ← listOf headResOf (fieldD j "results" .null)
+  pure (if h < 0 then none else some h.toNat, ⟨keys, ← boolF j "err", results⟩)
+
+/-- per head of a registry-level case: the head as the observer sees it through the runner, whether the
+registry is reached at all (something sampled is not cached), whether the recorded calls fit the request,
+tags -/
+def regFold : RCache HeadRes → Stager → List RegHead → List (Head × Bool × Bool × List String)
+  | _, _, [] => []
+  | c, st, h :: rest =>
+    let sampled := !(h.srcErr || h.active == 0)
+    let run := if sampled then toRun c (sampleKeys h.block h.active) else []
+    let fit := if run.isEmpty then h.calls.isEmpty else callsFit run h.calls
+    let d := (regHead c h).2
+    let tags :=
+      (if decide (h.calls.length > 1) then ["reg:several-batches"] else []) ++
+      (if sampled && decide (run.length < h.active) then ["reg:cache-hit"] else []) ++
+      (if sampled && run.isEmpty then ["reg:all-cached"] else []) ++
+      (if !h.calls.isEmpty && h.calls.all (fun k => !k.err && k.results.isEmpty) then
+         ["reg:all-batches-empty"] ++
+         (if !d.runErr && d.results.isEmpty && !st.ids.isEmpty then ["reg:everything-vanished-after-eligible"] else [])
+       else []) ++
+      (if !h.calls.isEmpty && h.calls.all (·.err) then ["reg:all-batches-failed"] else []) ++
+      (if h.calls.any (·.err) && h.calls.any (!·.err) then ["reg:failed-and-answered-batches"] else []) ++
+      (if h.calls.any (fun k => !k.err && k.results.isEmpty) && h.calls.any (fun k => !k.err && !k.results.isEmpty)
+       then ["reg:empty-and-non-empty-batches"] else []) ++
+      (if h.calls.any (fun k => k.err && !k.results.isEmpty) then ["reg:results-next-to-error"] else []) ++
+      (if h.calls.any (fun k => !k.err && !k.results.isEmpty && decide (k.results.length < k.keys.length))
+       then ["reg:fewer-results-than-keys"] else [])
+    (d, !run.isEmpty, fit, tags) :: regFold (regHead c h).1 (processHead st d) rest
+
 def handleReport (input impl : Json) : R Reply := do
   let raw ← rawCfg (← field input "cfg")
   let cfg := defaults raw
@@ -122,7 +166,12 @@ def handleReport (input impl : Json) : R Reply := do
   let decoded ← listF decOf? impl "decoded"
   let rawObs ← listOf (fun j => do hexBytes (← asStr j)) (fieldD input "obs" .null)
   if rawObs.length ≠ decoded.length then throw "decoded/obs length mismatch"
-  let attr := decoded.map toObs
+  -- the validator is the BasicEncoder's plus a deny list answered with (false, nil): an observation carrying a
+  -- denied block key or identifier is an invalid one
+  let deny := (← listOf asStr (fieldD input "deny" .null)).map strBytes
+  let denied (ob : Obs) : Bool := deny.contains ob.block || ob.ids.any fun i => deny.contains i
+  let attr : List (Option Obs) := decoded.map fun d => (toObs d).map fun ob =>
+    if denied ob then ({ block := [], ids := [] } : Obs) else ob
   let implChecked := (← listF asStr impl "checked").map strBytes
   let answered ← listF resOf impl "answered"
   let performed ← listF resOf impl "performed"
@@ -135,15 +184,26 @@ def handleReport (input impl : Json) : R Reply := do
       implChecked ++ l.filter (fun k => !implChecked.contains k)
     else l
   let runErr ← boolF script "runErr"
+  -- registry level (`reg`): the check goes through the repository's runner; at most ReportKeysLimit = 10 keys are
+  -- one batch, i.e. one registry call with the very keys `CheckUpkeep` was handed, on an empty cache
+  let isReg := hasReg input
+  let calls ← listOf callOf (fieldD impl "calls" .null)
+  let regOk := !isReg || (calls.all (fun c => c.1 == none) && decide (calls.length ≤ 1) &&
+    (calls.isEmpty || callsFit implChecked (calls.map (·.2))))
   let run : List Bytes → RunnerAns := fun ks =>
-    if ks == implChecked then ⟨runErr, answered⟩ else ⟨false, []⟩
+    if ks == implChecked then
+      if isReg then
+        let out := (runnerCheck (fun r : Res => if r.detailErr then [] else r.key) [] ks [⟨ks, runErr, answered⟩]).2
+        ⟨out.err, out.results⟩
+      else ⟨runErr, answered⟩
+    else ⟨false, []⟩
   let want := report cfg attr pend sh run (← boolF script "encErr")
   -- strict decoder vs encoding/json on every attributed observation
   let strictBad := (rawObs.zip decoded).any fun (r, d) =>
     match decodeObs r with
     | some x => d != some x
     | none => false
-  let agree := decide (want = got) && !strictBad && setup.isEmpty
+  let agree := decide (want = got) && !strictBad && setup.isEmpty && regOk
   let inflight := coord.inflight
   let sm := specReport cfg attr pend inflight (run want.checked).results want
   let si := specReport cfg attr pend inflight answered got
@@ -156,6 +216,11 @@ def handleReport (input impl : Json) : R Reply := do
     | none => []
   let tags :=
     [s!"status={got.status.name}"] ++
+    (if isReg then ["runner=real"] else []) ++
+    (if (decoded.map toObs).any (fun o => match o with
+        | some ob => validObs ob && denied ob
+        | none => false) then ["validator-refused-without-error"] else []) ++
+    (if isReg && !implChecked.isEmpty && answered.isEmpty && !runErr then ["reg:check-answered-nothing"] else []) ++
     (if raw.reportBlockLag > 0 then ["cfg:reportBlockLag>0"] else []) ++
     (if coord.real then ["coord=real"] else ["coord=fake"]) ++
     (if decoded.any (·.isNone) then ["undecodable-observation"] else []) ++
@@ -186,14 +251,11 @@ def handleReport (input impl : Json) : R Reply := do
          diff := if agree then "" else
            (if !setup.isEmpty then s!"harness: {setup}; " else "") ++
            (if strictBad then "strict decoder ≠ encoding/json; " else "") ++
+           (if !regOk then "registry calls do not fit the keys checked; " else "") ++
            s!"model: {showOut want} impl: {showOut got}",
          fail := if si then "" else explainReport cfg attr pend inflight answered got,
          nontrivial := decide (valid.length ≥ 2) && !implChecked.isEmpty && !answered.isEmpty,
          tags := tags }
-
-def headResOf (j : Json) : R HeadRes := do
-  pure { key := strBytes (← strF j "key"), eligible := ← boolF j "eligible", eligErr := ← boolF j "eligErr",
-         detailErr := ← boolF j "detailErr" }
 
 /-- a head together with the harness's observation points around it: `midAt` (k ≥ 1: Observation() is
 called inside the k-th `Eligible` call of this head; 0: not) and `after` -/
@@ -204,6 +266,8 @@ structure HeadPts where
   acceptAfter : Bool  -- with `after`: the observed key is accepted, then Observation() is called again
   slowRun : Bool      -- the head's CheckUpkeep stays pending while the next head is queued behind it
   stallMs : Int       -- virtual ms the observer stays parked inside the gated `Eligible` call (the model ignores it)
+  acceptKind : String := "" -- what is handed to ShouldAcceptFinalizedReport ("" = the report of the observed key)
+  reach : Bool := true -- registry level: the runner has something to ask the registry (not everything is cached)
 
 def headOf (j : Json) : R HeadPts := do
   let block ← strF j "block"
@@ -216,7 +280,8 @@ def headOf (j : Json) : R HeadPts := do
   let acc ← asBool (fieldD j "acceptAfter" (.bool false))
   let stall ← asInt (fieldD j "stallMs" (.num 0))
   let slow ← asBool (fieldD j "slowRun" (.bool false))
-  pure ⟨⟨strBytes block, active, srcErr, runErr, results⟩, midAt, aft, acc, slow, stall⟩
+  let kind ← asStr (fieldD j "acceptKind" (.str ""))
+  pure ⟨⟨strBytes block, active, srcErr, runErr, results⟩, midAt, aft, acc, slow, stall, kind, true⟩
 
 /-- verdict on one Observation() call -/
 structure PointVerdict where
@@ -241,6 +306,13 @@ def handlePoint (hps : List HeadPts) (coordJ : Json) (minConfs : Int) (pt : Json
   let outEnd ← hexBytes (← strF pt "outEnd")
   let retained := specRetained out outEnd
   let outErr ← strF pt "outErr"
+  if phase == "failing" then
+    -- the conditional observer's `Observe` fails: `Observation` returns that error and no bytes
+    let ok := outErr == "error" && out.isEmpty
+    return { agree := ok, specModel := true, specImpl := outErr != "panic",
+             diff := if ok then "" else s!"point n={n} failing: impl out={showBytes out} err={outErr}, expected an error and no bytes",
+             fail := if outErr != "panic" then "" else s!"observation: panic in Observation (point n={n} failing)",
+             tags := ["point=failing"] }
   let dec ← decOf? (← field pt "outDec")
   -- the stager the model says `Observe` reads at this point (for "mid": head n is in progress)
   let st := stagerAt heads n
@@ -297,8 +369,20 @@ def handlePoint (hps : List HeadPts) (coordJ : Json) (minConfs : Int) (pt : Json
          tags := tags }
 
 def handleObs (input impl : Json) : R Reply := do
-  let hps ← listOf headOf (fieldD input "heads" .null)
+  let hps0 ← listOf headOf (fieldD input "heads" .null)
+  -- registry level: what the observer gets from the runner is computed by the runner model from the recorded
+  -- registry calls (keys asked, error, results) of each head, one cache through all heads
+  let isReg := hasReg input
+  let calls ← listOf callOf (fieldD impl "calls" .null)
+  let regs : List RegHead := hps0.zipIdx.map fun (hp, i) =>
+    ⟨hp.head.block, hp.head.active, hp.head.srcErr, (calls.filter fun c => c.1 == some i).map (·.2)⟩
+  let folded := regFold [] {} regs
+  let hps : List HeadPts := if isReg then (hps0.zip folded).map fun (hp, d) => { hp with head := d.1, reach := d.2.1 } else hps0
+  let regOk := !isReg || (folded.all (·.2.2.1) && calls.all fun c => match c.1 with
+    | some i => decide (i < hps0.length)
+    | none => false)
   let heads := hps.map (·.head)
+  let obsFail ← asBool (fieldD input "obsFail" (.bool false))
   let coordJ ← field input "coord"
   let setup := (fieldD impl "setup" (.str "")).getStr?.toOption.getD ""
   let pts ← asList (fieldD impl "points" .null)
@@ -314,7 +398,7 @@ def handleObs (input impl : Json) : R Reply := do
       match hs with
       | [] => []
       | h :: rest =>
-        let slow := h.slowRun && !queued && !h.head.srcErr && h.head.active != 0
+        let slow := h.slowRun && !queued && !h.head.srcErr && h.head.active != 0 && h.reach
         if slow then
           if rest.isEmpty then
             [(i, "parked")] ++ (if h.after then [(i + 1, "after")] else []) ++
@@ -325,14 +409,44 @@ def handleObs (input impl : Json) : R Reply := do
             then [(i, "mid")] else []) ++
           (if h.after then [(i + 1, "after")] else []) ++
           (if h.after && h.acceptAfter then [(i + 1, "after2")] else []) ++ go rest (i + 1) false n
-    go hps 0 false heads.length ++ [(heads.length, "final"), (0, "successor")]
+    go hps 0 false heads.length ++ [(heads.length, "final")] ++
+      (if obsFail then [(heads.length, "failing")] else []) ++ [(0, "successor")]
   let got ← pts.mapM fun pt => do pure ((← natF pt "n"), (← strF pt "phase"))
   let pointsOk := decide (expected = got)
+  -- ShouldAcceptFinalizedReport / ShouldTransmitAcceptedReport on the bytes the harness handed over after a head
+  let accepts ← listOf (fun a => do
+    pure ((← natF a "n"), (← strF a "kind"), (← boolF a "ok"), (← boolF a "err"), (← boolF a "txOk"), (← boolF a "txErr")))
+    (fieldD impl "accepts" .null)
+  let fakeCoord := (← strF coordJ "kind") != "real"
+  let acceptOk := accepts.all fun (_, kind, ok, err, txOk, txErr) =>
+    let rb : ReportBytes := match kind with
+      | "empty" => .empty
+      | "garbage" => .undecodable
+      | "nokeys" => .keys []
+      | _ => .keys [[0]]
+    -- the harness encoder's KeysFromReport fails on no bytes and on garbage, returns no key for "nokeys"
+    let tk : Option (List Bytes) := match kind with
+      | "empty" => none
+      | "garbage" => none
+      | "nokeys" => some []
+      | _ => some [[0]]
+    let wa := shouldAccept rb
+    let wt := shouldTransmit (fun _ => false) tk
+    ok == wa.1 && err == wa.2.1 && txErr == wt.2 && (!(fakeCoord || kind != "") || txOk == wt.1)
+  -- every refusal the model expects happened (one per "after2" point of a head with such a report)
+  let refusedWant := (expected.filter fun (n, ph) => ph == "after2" &&
+    (match hps[n - 1]? with
+     | some h => h.acceptKind != ""
+     | none => false)).length
+  let refusedGot := (accepts.filter fun a => a.2.1 != "").length
+  let acceptsOk := acceptOk && refusedWant == refusedGot
   let coord ← coordOf coordJ (Json.mkObj []) raw.minConfirmations
-  let agree := vs.all (·.agree) && pointsOk && setup.isEmpty
+  let agree := vs.all (·.agree) && pointsOk && setup.isEmpty && regOk && acceptsOk
   let firstBad := vs.find? fun v => !v.specImpl
   let st := heads.foldl processHead {}
   let tags := (vs.flatMap (·.tags)).eraseDups ++
+    (if isReg then ["runner=real"] ++ (folded.flatMap (·.2.2.2)).eraseDups else []) ++
+    ((accepts.map fun a => if a.2.1 == "" then "accept:key" else s!"accept:refused-{a.2.1}").eraseDups) ++
     (if coord.real then ["coord=real"] else ["coord=fake"]) ++
     (if heads.any (fun h => !headSampled h) then ["unsampled-head"] else []) ++
     (if hps.any (fun h => h.midAt ≥ 1 && headSampled h.head && decide (h.midAt ≤ h.head.results.length) &&
@@ -342,17 +456,53 @@ def handleObs (input impl : Json) : R Reply := do
          diff := if agree then "" else
            (if !setup.isEmpty then s!"harness: {setup}; " else "") ++
            (if !pointsOk then s!"observation points: expected {expected} got {got}; " else "") ++
+           (if !acceptsOk then s!"ShouldAccept/ShouldTransmit answers {accepts} (refusals expected {refusedWant}); " else "") ++
+           (if !regOk then s!"registry calls do not fit the sampled keys (calls per head {regs.map fun r => r.calls.map fun c => c.keys.length}); " else "") ++
            String.intercalate " | " ((vs.filter (!·.agree)).map (·.diff)),
          fail := match firstBad with
            | some v => v.fail
            | none => "",
-         nontrivial := !st.ids.isEmpty || vs.any (fun v => v.tags.contains "mid:next-head-partly-staged"),
+         -- (registry level: decided by the input alone - which keys share a failing batch is up to crypto/rand)
+         nontrivial := if isReg then regs.any (fun r => !r.srcErr && r.active != 0)
+           else !st.ids.isEmpty || vs.any (fun v => v.tags.contains "mid:next-head-partly-staged"),
          tags := tags }
+
+/-- direct calls of the BasicEncoder: `GetMedian`, `SplitUpkeepKey`, `ValidateUpkeepKey` -/
+def handleEnc (input impl : Json) : R Reply := do
+  let blocks := (← listOf asStr (fieldD input "blocks" .null)).map strBytes
+  let keys ← listOf (optOf fun j => do pure (strBytes (← asStr j))) (fieldD input "keys" .null)
+  let e ← field impl "enc"
+  let med := strBytes (← strF e "median")
+  let panicked ← boolF e "medianPanic"
+  let outs ← listOf (fun k => do
+    pure ((← boolF k "splitOk"), (← hexBytes (← strF k "block")), (← hexBytes (← strF k "id")), (← boolF k "validOk"), (← boolF k "validErr")))
+    (fieldD e "keys" .null)
+  -- the model's median is about unsigned strings
+  let signed := blocks.any fun b => b.head? == some 43 || b.head? == some 45
+  let medOk := signed || (match getMedian blocks with
+    | some m => !panicked && m == med
+    | none => panicked)
+  let keysOk := decide (keys.length = outs.length) && (keys.zip outs).all fun (k, (sok, b, i, vok, verr)) =>
+    let sp := k.bind splitKey
+    (match sp with
+     | some (wb, wi) => sok && b == wb && i == wi
+     | none => !sok) &&
+    vok == validKey k && verr == !validKey k
+  let agree := medOk && keysOk
+  pure { agree := agree, specModel := true, specImpl := true,
+         diff := if agree then "" else s!"BasicEncoder: median impl={showBytes med} panic={panicked} model={(getMedian blocks).map showBytes}; keys ok={keysOk}",
+         nontrivial := !blocks.isEmpty || !keys.isEmpty,
+         tags := ["mode=enc"] ++ (if blocks.isEmpty then ["enc:median-of-none"] else []) ++
+           (if panicked then ["enc:median-panics"] else []) ++
+           (if keys.any (·.isNone) then ["enc:nil-key"] else []) ++
+           (if keys.any (fun k => validKey k) then ["enc:valid-key"] else []) ++
+           (if keys.any (fun k => !validKey k && (k.bind splitKey).isSome) then ["enc:splits-but-invalid"] else []) }
 
 /-- The model is evaluated with the configuration of the instance under test (`input.cfg`), whatever
 the same factory was asked for before (`input.prior`): limits carried over from an earlier instance
 show up as disagreement and as a violated batch / gas clause. -/
 def handle (input impl : Json) : R Reply := do
+  if (← strF input "mode") == "enc" then return ← handleEnc input impl
   let prior ← asList (fieldD input "prior" .null)
   let setup := (fieldD impl "setup" (.str "")).getStr?.toOption.getD ""
   if setup.startsWith "factory:" then
